@@ -76,8 +76,7 @@ def rangePointsX (o : Oracles) (c : Ctx) (d : LokiDb) (r : RangeAggX) : List Pt 
 
 /-- the vector aggregation over points that carry their labels (none written: everything into the empty label set) -/
 def aggStageX (o : Oracles) (a : VecOp) (pts : List Pt) : List Pt :=
-  let g : Grouping := (chosenGrouping a.byPrefix a.bySuffix).getD ⟨true, []⟩
-  let items := pts.map (regroupP o g)
+  let items := pts.map (regroupP o a.grouping)
   let keyOf := fun (p : Pt) => (p.key, p.ts)
   (items.map keyOf).eraseDups.filterMap (fun k =>
     let grp := items.filter (fun p => keyOf p == k)
